@@ -60,7 +60,8 @@ static void unary_ops(const Ops<T>& in, long it)
     CP("C02", "is_odd", 1, xs::is_odd(va), ref::is_odd_integer(x));
     CV("C02", "sign", 1, xs::sign(va), (x != x) ? x : (T)((x > 0) - (x < 0)), true, SN);
     CV("C02", "signnz", 1, xs::signnz(va), (bits(x) >> (sizeof(T) * 8 - 1)) ? (T)-1 : (T)1, x == x && x != 0, SB);
-    // frexp: mantissa bit-exact, exponent exact (unchecked for 0); finite inputs incl. subnormals
+    // frexp: mantissa bit-exact for every input (+-0, +-inf and NaN come back unchanged, as std::frexp returns them);
+    // exponent exact for finite inputs (0 for zeros; C leaves it unspecified for inf/NaN, so it is not looked at there)
     {
         OpStat& st = VH_ST("C02", "frexp");
         if (st.on)
@@ -75,14 +76,12 @@ static void unary_ops(const Ops<T>& in, long it)
             for (size_t i = 0; i < N; ++i)
             {
                 T x = in.a[i];
-                if (!(x == x) || std::isinf(x))
-                    continue;
-                int ee;
+                const bool fin = (x == x) && !std::isinf(x);
+                int ee = 0;
                 T em = ref::frexp(x, &ee);
                 st.evals++;
                 st.cell(cellidx(in, i, 1));
-                // sign of a zero mantissa (frexp(-0)) is not claimed
-                if (!(x == 0 ? o[i] == em : same_bits(o[i], em)) || (x != 0 && (long long)oe[i] != ee))
+                if (!same_fp(o[i], em) || (fin && (long long)oe[i] != ee))
                     viol(st, cls_fp<T>(x, x, x), "{" + wit3(in, i) + ",\"got_m\":\"" + hexv(o[i]) + "\",\"got_e\":" + std::to_string((long long)oe[i]) + ",\"exp_m\":\"" + hexv(em) + "\",\"exp_e\":" + std::to_string(ee) + "}");
             }
         }
@@ -124,9 +123,9 @@ static void nary_ops(const Ops<T>& in, Rng& rng, long it)
     CV("C02", "bitwise_or", 2, va | vb, frombits<T>((U)(bits(x) | bits(y))), true, SB);
     CV("C02", "bitwise_xor", 2, va ^ vb, frombits<T>((U)(bits(x) ^ bits(y))), true, SB);
     CV("C02", "bitwise_andnot", 2, xs::bitwise_andnot(va, vb), frombits<T>((U)(bits(x) & ~bits(y))), true, SB);
-    // from == to (this includes +0 vs -0): either operand is the exact answer, so the sign of that zero is free
+    // from == to returns to (std::nextafter): nextafter(+0, -0) is -0.  The zero pairs are counted as an operation of their own
     CV("C02", "nextafter", 2, xs::nextafter(va, vb), ref::nextafter(x, y), !(x == 0 && y == 0), SF);
-    CV("C02", "nextafter_equal_zeros", 2, xs::nextafter(va, vb), ref::nextafter(x, y), x == 0 && y == 0, [](T g, T e) { return g == e; });
+    CV("C02", "nextafter_equal_zeros", 2, xs::nextafter(va, vb), ref::nextafter(x, y), x == 0 && y == 0, SF);
     // fma family: either the fused or the separately rounded result, bit-exact
     {
         struct Alt
@@ -190,7 +189,9 @@ static void nary_ops(const Ops<T>& in, Rng& rng, long it)
             }
         }
     }
-    // ldexp with 2^e a normal number (DESIGN.md 5.3)
+    // ldexp for every exponent: half of the batches keep 2^e a normal number (the range the math kernels use), the others
+    // draw e from just outside that range, from the range where only the product decides (|e| up to 2*emax + mantissa)
+    // and from the whole integer type.  Reference: std::ldexp with the exponent clamped into int.
     {
         OpStat& st = VH_ST("C02", "ldexp");
         if (st.on)
@@ -198,20 +199,44 @@ static void nary_ops(const Ops<T>& in, Rng& rng, long it)
             alignas(64) I ex[N];
             alignas(64) T o[N];
             const int emin = std::numeric_limits<T>::min_exponent - 1, emax = std::numeric_limits<T>::max_exponent - 1;
+            const int mode = (int)(it % 4);
             for (size_t i = 0; i < N; ++i)
             {
                 uint64_t k = rng.next();
-                ex[i] = (k & 3) == 0 ? (I)(emin + (int)((k >> 8) % (uint64_t)(emax - emin + 1))) : (I)((int)((k >> 8) % 81) - 40);
+                int cls_unused;
+                switch (mode)
+                {
+                case 0:
+                case 1: ex[i] = (k & 3) == 0 ? (I)(emin + (int)((k >> 8) % (uint64_t)(emax - emin + 1))) : (I)((int)((k >> 8) % 81) - 40); break;
+                case 2: // around the two ends of the normal range and out to where every finite operand saturates
+                    switch ((k >> 4) & 3)
+                    {
+                    case 0: ex[i] = (I)(emax + 1 + (int)((k >> 8) % 8)); break;
+                    case 1: ex[i] = (I)(emin - 1 - (int)((k >> 8) % 8)); break;
+                    default: ex[i] = (I)((int)((k >> 8) % (uint64_t)(2 * (2 * emax + std::numeric_limits<T>::digits + 4))) - (2 * emax + std::numeric_limits<T>::digits + 4)); break;
+                    }
+                    break;
+                default: ex[i] = hostile<I>(rng, cls_unused); break;
+                }
             }
             mark_case("ldexp", tname<T>(), &in, sizeof(in.a));
             xs::ldexp(B::load_aligned(in.a), BI::load_aligned(ex)).store_aligned(o);
             for (size_t i = 0; i < N; ++i)
             {
-                T e = ref::ldexp(in.a[i], (int)ex[i]);
+                const long long ev = (long long)ex[i];
+                const int ec = ev > 100000 ? 100000 : ev < -100000 ? -100000 : (int)ev;
+                T e = ref::ldexp(in.a[i], ec);
                 st.evals++;
-                st.cell(cellidx(in, i, 1));
+                st.cell(cellidx(in, i, 1) ^ (unsigned)((ev < emin ? 1u : ev > emax ? 2u : 0u) << 13));
                 if (!same_fp(o[i], e))
-                    viol(st, cls_fp<T>(in.a[i], in.a[i], in.a[i]), "{" + wit3(in, i) + ",\"e\":" + std::to_string((int)ex[i]) + ",\"got\":\"" + hexv(o[i]) + "\",\"exp\":\"" + hexv(e) + "\"}");
+                {
+                    // named classes of the open finding F31 (first match wins)
+                    const bool a512 = std::is_base_of<xs::avx512f, ARCH>::value;
+                    const char* cl = (!a512 && (ev < emin || ev > emax)) ? "scale_factor_not_a_normal_number"
+                        : (a512 && sizeof(T) == 8 && ev != (long long)(int32_t)ev)                 ? "exponent_beyond_int32"
+                                                                                                   : cls_fp<T>(in.a[i], in.a[i], in.a[i]);
+                    viol(st, cl, "{" + wit3(in, i) + ",\"e\":" + std::to_string(ev) + ",\"got\":\"" + hexv(o[i]) + "\",\"exp\":\"" + hexv(e) + "\"}");
+                }
             }
         }
     }
